@@ -175,6 +175,8 @@ pub struct Engine {
     xcheck_ctr: u64,
     xcheck_buf: String,
     xcheck_n: u64,
+    /// keep the constant hash of symbolic items also in concrete re-executions (C20)
+    constant_hash_in_replay: bool,
 }
 
 thread_local! {
@@ -239,6 +241,7 @@ impl Engine {
             xcheck_ctr: 0,
             xcheck_buf: String::new(),
             xcheck_n: 0,
+            constant_hash_in_replay: false,
         }
     }
 
@@ -673,12 +676,18 @@ pub fn value_of(id: u32) -> i64 {
 }
 pub fn concrete_value_for_hash(id: u32) -> Option<i64> {
     with(|e| {
-        if e.mode == Mode::Concrete {
+        if e.mode == Mode::Concrete && !e.constant_hash_in_replay {
             e.values.get(id as usize).copied()
         } else {
             e.hash_classes.get(&id).map(|c| *c as i64)
         }
     })
+}
+
+/// Concrete re-executions of this run keep the constant hash of symbolic items
+/// (a lawful Hash that is coarser than Eq), instead of hashing the values.
+pub fn keep_constant_hash_in_replay() {
+    with(|e| e.constant_hash_in_replay = true)
 }
 
 /// Give a symbolic constant a hash class for this run.  The caller must keep
@@ -912,14 +921,29 @@ where
                                         let model = with(|e| {
                                             if e.mode == Mode::Pinned {
                                                 Some((e.values.clone(), e.bvalues.clone()))
-                                            } else if e.z3.as_mut().unwrap().check() == L_TRUE {
-                                                e.current_model()
                                             } else {
-                                                None
+                                                let r = e.z3.as_mut().unwrap().check();
+                                                if r == L_TRUE {
+                                                    e.current_model()
+                                                } else {
+                                                    crate::z3::LAST_MODEL_PROBLEM.with(|p| *p.borrow_mut() = Some(format!("check-sat of the path condition at the leaf answered {} (z3 error {})", r, crate::z3::take_error())));
+                                                    None
+                                                }
                                             }
                                         });
                                         match model {
-                                            None => Leaf::EngineError("no model at leaf".into()),
+                                            None => {
+                                                // the sanity re-execution needs a model whose values fit i64;
+                                                // without one this leaf is simply not re-executed (counted)
+                                                let why = crate::z3::LAST_MODEL_PROBLEM.with(|p| p.borrow_mut().take()).unwrap_or_else(|| "no model".into());
+                                                with(|e| {
+                                                    *e.stats.witness.entry("leaf_reexecutions_skipped_for_lack_of_an_i64_model".into()).or_insert(0) += 1;
+                                                    if e.samples.len() < 3 {
+                                                        e.samples.push(serde_json::json!({"note": "leaf re-execution skipped", "why": why}));
+                                                    }
+                                                });
+                                                Leaf::Ok(obs)
+                                            }
                                             Some((iv, bv)) => {
                                                 with(|e| e.stats.concrete_replays += 1);
                                                 match run_concrete(&iv, &bv, || run(shape)) {
